@@ -141,7 +141,7 @@ fn one_input(seed: u64, idx: u64, arch: &pblockgen::Arch) -> Value {
 }
 
 pub fn gen(out: &mut Out, _sub: &str) {
-    let n = out.size(240, 6000);
+    let n = out.size(480, 6000);
     let arch = pblockgen::arch64();
     let inputs: Vec<Value> = (0..n).map(|idx| one_input(out.seed, idx, &arch)).collect();
     let results = crate::par::map(inputs, 8, |inp| exec(&inp));
